@@ -19,7 +19,7 @@ Definition ho_send_message_generates_id_when : nat := 1. (* 1: id == "", 2: attr
 Definition ho_send_message_registers_completed_id : bool := true.
 Definition ho_send_presence_generates_id_when : nat := 1. (* 1: id == "", 2: attribute absent, 3: other, 0: never *)
 Definition ho_send_presence_registers_completed_id : bool := true.
-Definition ho_errcloser_token_closes : nat := 2. (* 0 nothing, 1 the guarded Close, 2 the embedded reader *)
+Definition ho_errcloser_token_closes : nat := 1. (* 0 nothing, 1 the guarded Close, 2 the embedded reader *)
 Definition ho_errcloser_close_once : bool := true.
 Definition ho_iter_wraps_response : bool := true.
 Definition ho_iter_closes_on_error_return : bool := true.
@@ -51,8 +51,8 @@ Definition ho_ibb_serve_close_blocking_write_locks : nat := 0.
 Definition ho_ibb_serve_close_try_write_locks : nat := 1.
 Definition ho_ibb_serve_close_sets_abort : bool := true.
 Definition ho_ibb_serve_close_returns_error : bool := false.
-Definition ho_ibb_expect_cleanup_deletes : nat := 1.
-Definition ho_ibb_expect_cleanup_checks_owner : bool := true.
+Definition ho_ibb_expect_cleanup_deletes : nat := 0.
+Definition ho_ibb_expect_cleanup_checks_owner : bool := false.
 Definition ho_ibb_open_offer_gives_up_on_done : bool := true.
 Definition ho_ibb_responses_obtained : nat := 1.
 Definition ho_ibb_responses_closed_on_all_paths : nat := 1.
